@@ -3400,6 +3400,8 @@ def main(repo, outdir):
     guard("PolyGen.v", lambda: gen_poly(repo))
     import py2coq_plots  # generator for the vertex routine of utils/plots.py (C18): translator/py2coq_plots.py
     guard("PlotsGen.v", lambda: py2coq_plots.gen_plots(repo))
+    from py2coq_tlp import gen_tlp                # generator for _get_tlp_context / _context_reduction / solve_for_variables: translator/py2coq_tlp.py
+    guard("TlpGen.v", lambda: gen_tlp(repo))
     changed = []
     for name, txt in res.items():
         p = os.path.join(outdir, name)
